@@ -36,6 +36,8 @@ INSTANCES = {
     "ser-3q": (["Leaf", "Unary"], {}, 3, 1, {0}, {"new", "ser", "deser", "drop", "dropall", "detach_self"}, 7),
     "ser-many-3q": (["Leaf", "Many"], {}, 3, 2, {0}, {"new", "ser", "deser", "drop", "dropall", "detach_self"}, 6),
     "ser-many-4": (["Leaf", "Many"], {}, 4, 2, {0}, {"new", "ser", "deser", "dropall", "detach_self"}, 6),
+    "cachey-3": (["Cachey", "Unary"], {("Cachey", "note"): {0, 1}}, 3, 1, {0},
+                 {"new", "replace", "dcreplace", "dup", "detach_self", "drop"}, 7),
     "ser-slots-3": (["SLeaf", "SUnary"], {}, 3, 1, {0}, {"new", "ser", "deser", "drop", "dropall", "detach_self"}, 6),
     "ser-4": (["Leaf", "Unary"], {("Leaf", "a"): {0, 1}}, 4, 1, {0}, SEROPS, 8),
     "dup-5": (["Leaf", "Unary", "Many"], {}, 5, 1, {0}, {"new", "dup", "detach_self", "drop"}, 6),
